@@ -1,6 +1,6 @@
 PROP = dict(
     lean_modules=["DefraModel.Props.C07", "DefraModel.Oblig.C07"],
-    extract=dict(obligations=['Defra.Oblig.C07.index_scans_are_refiltered']),
+    extract=dict(obligations=['Defra.Oblig.C07.index_scans_are_refiltered', 'Defra.Oblig.C07.nil_operand_matchers_follow_the_filter']),
     oblig_modules=["DefraModel.Oblig.C07"],
     props_modules=["DefraModel.Props.C07"],
     engines=[dict(name="query", drv="query", args=["twin"], timeout=3600), dict(name="crdt", drv="crdt"), dict(name="idxm", drv="idxm", timeout=3600)],
@@ -20,7 +20,7 @@ PROP = dict(
         "relations under indexes are covered by C09's engine; JSON filters are compared between the twin collections only (the model evaluates scalar and array conditions); merged remote commits are covered by the crdt engine's lookups only",
         "the theorems cover the candidate interval of a condition on the first indexed field of non-JSON kinds; value matchers on further composite fields only remove candidates, the complete filter is re-applied in any case",
     ],
-    trusted_base=["harness/query (twin mode), Driver/Query.lean", "harness/idxm, Driver/Idxm.lean",
+    trusted_base=["tools/extract (the `condition == nil` branch of internal/connor gt/ge/lt/le and the nil-operand branch of createValueMatcher) and the expectation in DefraModel/Oblig/C07.lean", "harness/query (twin mode), Driver/Query.lean", "harness/idxm, Driver/Idxm.lean",
                   "tools/extract (fetcher constructions in source order) and the expectation in DefraModel/Oblig/C07.lean"],
 )
 META = dict(
